@@ -1,6 +1,8 @@
 """C18 - problem metadata is well-formed; published tables agree with the functions."""
 import math
 
+import os
+
 from vlib import core, bench, bench_checks as B, harness as H
 
 PT = bench.PT
@@ -75,7 +77,7 @@ def run(chk):
     thorough = chk.tier == 'thorough'
     core.proof_stage(chk, 'Properties/C18.v', extra_targets=['Problems/Families.vo', 'Problems/Simple.vo', 'Problems/Meta.vo'])
     chk.trusted += ['coq-interval and Coquelicot (auto_derive)', 'decimal literals of the tables are used as written']
-    chk.assumptions += ['table rows proved in this run are listed in coverage.instances_proved (quick: seeded sample; thorough: all 2 x 1000)',
+    chk.assumptions += ['table rows proved in this run are listed in coverage.instances_proved (quick: seeded sample of 10 + 10 rows; thorough: 100 + 100 rows chosen by --seed; VERIF_ALL_ROWS=1: all 2 x 1000)',
                         'variable names are empty strings for the numpy-built families (dtype=str of width 0): the property does not forbid that',
                         'location statements: every global extremiser lies within 1e-4 of the range of the tabulated one (c18_min_located / c18_max_located: derivative sign near the tabulated point + '
                         'separation beyond 0.5%, combined by Problems/Locate.v, mean value theorem); the derivative bound is turned into a Lipschitz statement by lipschitz_from_derivative']
@@ -112,7 +114,8 @@ def run(chk):
         if probs and found < 4:
             found += chk.violation('metadata', '%s%r: %s' % (m['family'], m['args'], '; '.join(probs)), {'kind': 'meta', 'family': m['family'], 'args': m['args']})
     # (b) table rows
-    ks = {fam: (list(range(1000)) if thorough else sorted(rng.sample(range(1000), 8) + [0, 999])) for fam in ('Hill', 'Shekel')}
+    allrows = bool(os.environ.get('VERIF_ALL_ROWS'))      # soak: every one of the 2 x 1000 rows (hours); thorough: a seeded sample of 100 + 100
+    ks = {fam: (list(range(1000)) if allrows else sorted(set(rng.sample(range(1000), 98 if thorough else 8) + [0, 999]))) for fam in ('Hill', 'Shekel')}
     texts, tie = [], []
     try:
         for fam in ('Hill', 'Shekel'):
